@@ -6,17 +6,17 @@ pub mod c05;
 #[cfg(feature = "decodes")]
 pub mod c06;
 pub mod c07;
-#[cfg(any(feature = "native", feature = "rustls"))]
+#[cfg(any(feature = "native", feature = "rustls-any"))]
 pub mod c08;
 pub mod c09;
-#[cfg(any(feature = "native", feature = "rustls"))]
+#[cfg(any(feature = "native", feature = "rustls-any"))]
 pub mod c10;
 pub mod c11;
-#[cfg(any(feature = "native", feature = "rustls"))]
+#[cfg(any(feature = "native", feature = "rustls-any"))]
 pub mod c12;
-#[cfg(any(feature = "native", feature = "rustls"))]
+#[cfg(any(feature = "native", feature = "rustls-any"))]
 pub mod c13;
-#[cfg(any(feature = "native", feature = "rustls"))]
+#[cfg(any(feature = "native", feature = "rustls-any"))]
 pub mod c14;
 pub mod c15;
 pub mod c16;
@@ -32,7 +32,7 @@ pub fn all() -> Vec<Property> {
     #[cfg(feature = "decodes")]
     v.push(c06::property());
     // these need a TLS server (openssl) in the harness: absent from the TLS-less flavour used under Miri
-    #[cfg(any(feature = "native", feature = "rustls"))]
+    #[cfg(any(feature = "native", feature = "rustls-any"))]
     v.extend([c08::property(), c10::property(), c12::property(), c13::property(), c14::property()]);
     v.sort_by_key(|p| p.id);
     v
